@@ -158,7 +158,7 @@ namespace
         bool ref = false;
         bool twice = false; // the dispatcher object is kept and invoked a second time (stateful rvalue functor)
         bool owning = false; // a state-owning functor passed as a non-const lvalue and dispatched twice
-        bool misc = false; // other call shapes: void/no-arg, move-only result, five mixed arguments
+        bool misc = false; // other call shapes: void/no-arg, five mixed arguments
     };
 
     // family templates: feature sets closed under the extension chain
@@ -202,7 +202,7 @@ namespace
     Counter c_cpuid("sim", "cpuid_instructions"), c_xgetbv("sim", "xgetbv_instructions");
     Counter cl_onlyif("clause", "1_only_if(arch,boot)"), cl_mono("clause", "2_monotone_on_closed(child,parent,boot)"), cl_ud("clause", "3_no_xgetbv_ud(boot)"),
         cl_stable("clause", "4_stable_within_boot(compare)"), cl_disp("clause", "5_dispatch_judged"), cl_disp_vac("clause", "5_dispatch_vacuous_none_available"),
-        cl_disp_twice("clause", "5_second_invocation_of_a_kept_dispatcher_judged"), cl_disp_misc("clause", "5_other_call_shapes_judged(void,move_only_result,five_mixed_arguments)");
+        cl_disp_twice("clause", "5_second_invocation_of_a_kept_dispatcher_judged"), cl_disp_misc("clause", "5_other_call_shapes_judged(void_no_argument,five_mixed_arguments)");
     Counter p_closed("probe", "closed_configurations"), p_nonclosed("probe", "non_closed_configurations"), p_bits_no_state("probe", "arch_with_bits_but_os_state_disabled"),
         p_fall5("probe", "dispatch_fell_through_5_or_more"), p_last("probe", "dispatch_chose_last_member"), p_underreport("info", "bits_and_state_present_but_not_reported(permitted:the_property_says_only_if)"),
         p_reboot_changed("probe", "reboot_changed_report"), p_osx_off("probe", "boots_with_osxsave_off"), p_other_leaf("info", "detector_asked_leaf_outside_the_four(would_be_served_stable_junk)");
@@ -697,16 +697,14 @@ namespace
                     if (op.misc)
                     {
                         ++cl_disp_misc;
-                        static const char* SHAPE[3] = { "void()", "unique_ptr(unique_ptr)", "long(int, const string&, double&, vector&&, const char*)" };
-                        for (int k = 0; k < 3; ++k)
+                        static const char* SHAPE[3] = { "void()", "-", "long(int, const string&, double&, vector, const char*)" };
+                        for (int k = 0; k < 3; k += 2)
                         {
                             if (mio.calls[k] != 1)
                                 out.violate("C15/dispatch-call-count", sim::fmt("functor of shape %s invoked %d times (list #%u %s)", SHAPE[k], mio.calls[k], (unsigned)(op.list % lists.size()), ln));
                             else if (mio.arch[k] != expect)
                                 out.violate("C15/dispatch-wrong-arch", sim::fmt("functor of shape %s received %s, expected %s", SHAPE[k], mio.arch[k] >= 0 ? SPEC[mio.arch[k]].name : "?", SPEC[expect].name));
                         }
-                        if (mio.calls[1] == 1 && mio.got_unique != mio.want_unique)
-                            out.violate("C15/dispatch-return", sim::fmt("move-only result: got %ld, functor returned %ld", mio.got_unique, mio.want_unique));
                         if (mio.calls[2] == 1 && (mio.got_many != mio.want_many || !mio.many_ok))
                             out.violate("C15/dispatch-forwarding", sim::fmt("five mixed arguments: result %ld (functor returned %ld), identities/categories preserved: %d", mio.got_many, mio.want_many, (int)mio.many_ok));
                     }
